@@ -339,11 +339,17 @@ impl Harness for C08 {
         for j in jobs.iter_mut() {
             j.params["seed"] = json!(seed);
         }
+        let jobs = {
+            let mut j: Vec<Job> = jobs;
+            j.insert(0, Job::new("builders", json!({"kind": "builders"})));
+            j
+        };
         Plan {
             jobs,
             budget_s: if t { 2700 } else { 40 },
             case_deadline_ms: 20_000,
             floors: vec![
+                ("builder_chains", 5),
                 ("fits_ok", 500_000),
                 ("judged_lasso_normalized", 100_000),
                 ("judged_lasso_raw", 100_000),
@@ -362,6 +368,7 @@ impl Harness for C08 {
                 ("constant_target_cases", 32),
             ],
             bounds: json!({
+                "builders": mc_sc::builders::BOUNDS,
                 "lattice_lasso": if t {
                     "every X over S4={0,1,-1,2} (no constant column) for (p,n) in {(1,2),(1,3),(1,4),(2,3)}, over S3={0,1,-1} for (2,4), over {0,1} for (2,5) and (3,4); every y over {0,1,-2,3}^n; alpha {0.1,1,1e-3,10} x normalize {on,off} x tol {1e-4,1e-3,1e-6} x shift {0,10,1e4}"
                 } else {
@@ -383,6 +390,7 @@ impl Harness for C08 {
             "fam" => run_family(job, seed),
             "invalid" => invalid::run(job, seed),
             "ctarget" => run_ctarget(job, seed),
+            "builders" => mc_sc::builders::run("C08"),
             other => panic!("unknown job kind {}", other),
         }
     }
